@@ -376,3 +376,11 @@ impl Metainfo {
         }
     }
 }
+
+#[cfg(rdest_verif)]
+impl Metainfo {
+    /// Parsed fields, for the conformance harness: (announce, name, piece length, files).
+    pub fn verif_fields(&self) -> (&String, &String, u64, &Vec<File>) {
+        (&self.announce, &self.name, self.piece_length, &self.files)
+    }
+}
